@@ -1,15 +1,18 @@
 """C07 -- re-rooting and concatenation preserve structure and geometry: sidecar contracts.
 
-Carriers (swcgeom/core/tree_utils.py): redirect_tree, cat_tree, _sort_tree.
+Carriers (swcgeom/core/tree_utils.py): redirect_tree, cat_tree (fixed small sizes AND symbolic sizes of both trees), _sort_tree;
+sort_nodes_impl by a checked REFINEMENT of the contract proved under C05 (no longer assumed); Tree.Node.is_root / children.
 """
 import z3
 
 from contracts.common import COLS, col, nof, sym_tree, sym_tree_fixed
 from pyvc import ext_C07
 from pyvc.spec import Registry
-from pyvc.values import NArr, Obj, PList, SArr, fresh_name, to_z3, zint
+from pyvc.values import NArr, Obj, PDict, PList, SArr, fresh_name, to_z3, zint
 
 ext_C07.install()
+
+DEPENDS = ["C05"]  # sort_nodes_impl: C07's contract is a checked REFINEMENT of the contract proved under C05 (see register_sort)
 
 TU = "swcgeom/core/tree_utils.py"
 NORM = "swcgeom/core/swc_utils/normalizer.py"
@@ -270,6 +273,9 @@ def register_redirect(R):
         if not vars.get("sort"):
             sort_call_hint(E, vars)
 
+    global RR_POST
+    RR_POST = post  # the clause builder, also used by cat_tree's call-site contract of redirect_tree
+
     POSTS = ["same-columns-and-size", "fresh-storage", "requested-node-is-root", "it-is-the-only-root", "path-ends-at-the-old-root", "path-edges-reversed",
              "off-path-parents-kept", "undirected-edges-kept", "every-node-reaches-the-new-root", "types-of-old-and-new-root-exchanged", "every-other-attribute-kept"]
 
@@ -302,6 +308,8 @@ def _is_tree(E, ids, pids, which):
         pdz = [to_z3(x, "int") for x in pids.items]
         if which == "ids-distinct":
             return z3.And(*[idz[a] != idz[b] for a in range(n) for b in range(a + 1, n)]) if n > 1 else True
+        if which == "no-id-is-minus-one":
+            return z3.And(*[x != -1 for x in idz]) if n else True
         if which == "single-root":
             return z3.Sum([z3.If(p == -1, 1, 0) for p in pdz]) == 1 if n else False
         if which == "parents-exist":
@@ -313,18 +321,22 @@ def _is_tree(E, ids, pids, which):
             return z3.And(*reach)
     N = ids.nz()
     prow, sdepth, rr = E.spec_extra["prow"].f, E.spec_extra["sdepth"].f, to_z3(E.spec_extra["srootrow"], "int")
-    a, b = z3.Ints(fresh_name("a") + " " + fresh_name("b"))
+    a, b = z3.Ints("it_a it_b")  # fixed bound names: two constructions of a clause over the same table are the same term
     if which == "ids-distinct":
         return z3.ForAll([a, b], z3.Implies(z3.And(0 <= a, a < b, b < N), ids.get(a).z != ids.get(b).z))
+    if which == "no-id-is-minus-one":
+        # -1 is the "no parent" marker: a row carrying it as its id would be taken for the parent of the root (found by the
+        # refinement check against C05's proved contract: the contract assumed here before did not ask for it)
+        return z3.ForAll([a], z3.Implies(z3.And(0 <= a, a < N), ids.get(a).z != -1))
     if which == "single-root":
         return z3.And(0 <= rr, rr < N, pids.get(rr).z == -1, z3.ForAll([a], z3.Implies(z3.And(0 <= a, a < N, a != rr), pids.get(a).z != -1)))
     if which == "parents-exist":
         return z3.ForAll([a], z3.Implies(z3.And(0 <= a, a < N, a != rr), z3.And(0 <= prow(a), prow(a) < N, ids.get(prow(a)).z == pids.get(a).z)))
     if which == "every-row-reaches-the-root":
-        return z3.ForAll([a], z3.Implies(z3.And(0 <= a, a < N), z3.And(sdepth(a) >= 0, z3.Implies(a != rr, sdepth(a) == sdepth(prow(a)) + 1))))
+        return z3.And(sdepth(rr) == 0, z3.ForAll([a], z3.Implies(z3.And(0 <= a, a < N), z3.And(sdepth(a) >= 0, z3.Implies(a != rr, sdepth(a) == sdepth(prow(a)) + 1)))))
 
 
-TREE_PRE = ("ids-distinct", "single-root", "parents-exist", "every-row-reaches-the-root")
+TREE_PRE = ("ids-distinct", "no-id-is-minus-one", "single-root", "parents-exist", "every-row-reaches-the-root")
 SORT_GHOSTS = {"prow": (["int"], "int"), "sdepth": (["int"], "int")}
 
 
@@ -369,10 +381,52 @@ def register_sort(R):
 
         return (w, f)
 
+    def sni_setup(S):
+        n = S.int("n")
+        S.assume(n.z >= 0)
+        return dict(topology=(S.arr("int", n=n, name="old_ids"), S.arr("int", n=n, name="old_pids")), __ghost__={"srootrow": S.int("srootrow")})
+
+    def sni_lengths(E, v, o):
+        (new_ids, new_pids), id_map = v["result"]
+        n = o["topology"][0].nz()
+        return z3.And(new_ids.nz() == n, new_pids.nz() == n, id_map.nz() == n)
+
+    def link_entry(E, v):
+        """C05's ghost symbols DEFINED from this module's vocabulary: the root row, the parent row and the depth witness are
+        the ones given here; posof (row carrying an id) is the inverse of the id column, which exists because the ids are
+        pairwise distinct (stated under that hypothesis, so the definition is conservative)"""
+        from contracts import C05
+
+        ids, pids = v["topology"]
+        n = ids.nz()
+        prow, sdepth, rr = E.spec_extra["prow"].f, E.spec_extra["sdepth"].f, to_z3(E.spec_extra["srootrow"], "int")
+        i, a, b = (z3.Int(fresh_name(x)) for x in "iab")
+        E.assume(C05.P0 == rr)
+        E.assume(z3.ForAll([i], C05.pp(i) == prow(i)))
+        E.assume(z3.ForAll([i], C05.depth5(i) == sdepth(i)))
+        distinct = z3.ForAll([a, b], z3.Implies(z3.And(0 <= a, a < b, b < n), ids.get(a).z != ids.get(b).z))
+        E.assume(z3.Implies(distinct, z3.ForAll([i], z3.Implies(z3.And(0 <= i, i < n), C05.posof(ids.get(i).z) == i))))
+        E.assumptions.add("ghost definitions (refinement of sort_nodes_impl, C07 over C05): rootrow5 := srootrow, pp := prow, depth5 := sdepth, "
+                          "posof := inverse of the id column (exists when the ids are pairwise distinct)")
+
+    def link_exit(E, v, res):
+        """this module's Skolem inverse of the returned index array := C05's `newof`"""
+        from contracts import C05
+
+        i = z3.Int(fresh_name("i"))
+        f = sni_inv(E, res[1])
+        E.assume(z3.ForAll([i], f(i) == C05.newof(i)))
+        E.assumptions.add("ghost definition (refinement of sort_nodes_impl, C07 over C05): sortinv := newof")
+
     key = f"{NORM}:sort_nodes_impl"
-    if True:  # registered next to C05's verified contract; the registry prefers this one only while C07 is checked
-        R.add(key, prop="C07", trusted=True, requires=[sni_pre(w) for w in TREE_PRE], returns=sni_result, ensures=[sni_post(w) for w in RELABEL],
-              notes="assumed contract (its proof belongs to C05): the returned index array is a permutation of the rows, parents keep their children and come first")
+    # registered next to C05's verified contract (the registry prefers this one while a C07 carrier is verified).  It used to be
+    # ASSUMED; it is now a checked refinement of C05's contract: `refines` makes the verifier prove requires(C07) => requires(C05)
+    # and ensures(C05) => ensures(C07) instead of looking at the body (which C05 does).
+    R.add(key, prop="C07", setup=sni_setup, ghost_funcs=SORT_GHOSTS, requires=[sni_pre(w) for w in TREE_PRE], returns=sni_result,
+          ensures=[("lengths", sni_lengths)] + [sni_post(w) for w in RELABEL],
+          options=dict(refines="C05", refine_link=dict(entry=link_entry, exit=link_exit)),
+          notes="refinement of the contract proved under C05 (vocabulary of this module: prow / sdepth / srootrow witnesses, Skolem inverse sortinv): "
+                "the returned index array is a permutation of the rows, parents keep their children and come first")
 
     # ------------------------------------------------------------- _sort_tree
     def st_setup(S):
@@ -451,6 +505,8 @@ def ct_setup(n1, n2, translate):
 
 def ct_pre(which):
     def f(E, v, o):
+        if isinstance(col(v["tree1"], "id"), SArr):
+            return cts_pre(E, v, which)
         out = []
         for nm in ("tree1", "tree2"):
             t = v[nm]
@@ -473,6 +529,8 @@ def ct_post(which):
         res = v["result"]
         if not isinstance(res, Obj) or "presort" not in E.ghost:
             return False
+        if isinstance(col(o["tree1"], "id"), SArr):
+            return cts_post(E, v, o, which)
         S, sg, inv = E.ghost["presort"]  # S: the concatenated table as handed to _sort_tree
         t1, t2 = o["tree1"], o["tree2"]
         A, B, T = ndata(t1), ndata(t2), ndata(S)
@@ -538,6 +596,345 @@ def ct_post(which):
     return (which, f)
 
 
+
+# =========================================================================== cat_tree for SYMBOLIC sizes of both trees
+# Both trees have a symbolic number of nodes (>= 1), ids = positions, the root at ANY position (ghosts root1 / root), depth witnesses
+# depth1 / depth; both junction nodes symbolic.  redirect_tree enters through a call-site contract made of the clauses proved for it above
+# (those that do not mention its local `path`); the list of the junction's children is the real boolean-mask filter (ghost maps kappa / rho
+# of the numpy model), the relinking loop is cut by an invariant, np.pad / np.delete / np.concatenate are library models for symbolic lengths.
+RT = f"{TU}:redirect_tree"
+RR_POST = None
+
+
+def _like_tree(S, fr):
+    """result shape of redirect_tree at a call site: a tree of the argument's class with the same columns (fresh storage)"""
+    t = fr.vars["tree"]
+    nd = {c: SArr.fresh(a.kind, nof(t), name="rr_" + c) for c, a in ndata(t).items()}
+    return Obj(t.cls, dict(t.fields, ndata=PDict(nd), comments=PList(list(t.fields["comments"].items))))
+
+
+def rr_callsite_contract():
+    from pyvc.spec import Contract
+
+    usable = ["same-columns-and-size", "fresh-storage", "requested-node-is-root", "it-is-the-only-root", "undirected-edges-kept",
+              "types-of-old-and-new-root-exchanged", "every-other-attribute-kept"]
+
+    def reach(E, v, o):
+        """`every-node-reaches-the-new-root`: the witnesses are existential, the call site gets its own symbols (prow2 / sdepth2)"""
+        saved = {k: E.spec_extra.get(k) for k in ("prow", "sdepth", "srootrow")}
+        E.spec_extra.update(prow=E.spec_extra["prow2"], sdepth=E.spec_extra["sdepth2"], srootrow=o["new_root"])
+        try:
+            return RR_POST("every-node-reaches-the-new-root")[1](E, v, o)
+        finally:
+            E.spec_extra.update(saved)
+
+    return Contract(RT, prop="C07", requires=[("sort-is-off", lambda E, v, o: v["sort"] is False)] + RR_PRE, returns=_like_tree,
+                    ensures=[RR_POST(w) for w in usable] + [("every-node-reaches-the-new-root", reach)])
+
+
+class _CatOverlay:
+    def __init__(self, base):
+        self.base, self.local = base, None
+
+    def get(self, key, default=None):
+        if key == RT:
+            if self.local is None:
+                self.local = rr_callsite_contract()
+            return self.local
+        return self.base.get(key, default)
+
+    def __getattr__(self, name):
+        return getattr(self.base, name)
+
+
+def cts_setup(translate):
+    def f(S):
+        t1 = sym_tree(S, "a", frozen=True, extra_cols=("tag",))   # `tag`: a column tree2 lacks (zero-padded)
+        t2 = sym_tree(S, "b", frozen=True, extra_cols=("aux",))   # `aux`: a column tree1 lacks (dropped)
+        root1 = S.int("root1")
+        return dict(tree1=t1, tree2=t2, node1=S.int("node1"), node2=S.int("node2"), translate=translate,
+                    __ghost__={"root": S.int("root2"), "root1": root1, "srootrow": root1})
+
+    return f
+
+
+CT_GHOSTS = dict(depth=(["int"], "int"), depth1=(["int"], "int"), prow2=(["int"], "int"), sdepth2=(["int"], "int"), **SORT_GHOSTS)
+
+
+def _wf(t, root, depth):
+    n, idc, pid = nof(t), col(t, "id").arr, col(t, "pid").arr
+    i = z3.Int(fresh_name("i"))
+    rng = z3.And(i >= 0, i < n)
+    return z3.And(z3.ForAll([i], z3.Implies(rng, z3.Select(idc, i) == i)), root >= 0, root < n, z3.Select(pid, root) == -1,
+                  z3.ForAll([i], z3.Implies(z3.And(rng, i != root), z3.And(z3.Select(pid, i) >= 0, z3.Select(pid, i) < n))),
+                  depth(root) == 0, z3.ForAll([i], z3.Implies(z3.And(rng, i != root), z3.And(depth(i) == depth(z3.Select(pid, i)) + 1, depth(i) > 0))))
+
+
+def cts_pre(E, v, which):
+    X = E.spec_extra
+    if which == "well-formed-inputs":
+        return z3.And(_wf(v["tree1"], to_z3(X["root1"], "int"), X["depth1"].f), _wf(v["tree2"], to_z3(X["root"], "int"), X["depth"].f))
+    a, b = to_z3(v["node1"], "int"), to_z3(v["node2"], "int")
+    return z3.And(a >= 0, a < nof(v["tree1"]), b >= 0, b < nof(v["tree2"]))
+
+
+class Cat:
+    """vocabulary of the symbolic clauses: A / B the input tables, a / b the junctions, n1 / n2 the sizes, the translation, the merge
+    condition, adj = undirected edge of tree2, row(j) = position of tree2's node j in the concatenated table"""
+
+    def __init__(self, E, v, o):
+        self.A, self.B = ndata(o["tree1"]), ndata(o["tree2"])
+        self.n1, self.n2 = nof(o["tree1"]), nof(o["tree2"])
+        self.a, self.b = to_z3(o["node1"], "int"), to_z3(o["node2"], "int")
+        self.root2 = to_z3(E.spec_extra["root"], "int")
+        tr = bool(v["translate"])
+        g = lambda t, c, i: z3.Select(t[c].arr, i)
+        self.g = g
+        self.off = {c: (g(self.A, c, self.a) - g(self.B, c, self.b)) if tr else z3.RealVal(0) for c in "xyz"}
+        d = [g(self.B, c, self.b) + self.off[c] - g(self.A, c, self.a) for c in "xyz"]
+        self.merged = z3.simplify(d[0] * d[0] + d[1] * d[1] + d[2] * d[2] < EPS2)
+        self.adj = lambda p, q: z3.Or(g(self.B, "pid", p) == q, g(self.B, "pid", q) == p)
+
+
+TABLE_CLAUSES = ("merged-iff-junctions-coincide", "first-tree-rows-unchanged", "second-tree-rows-are-a-shifted-translated-copy", "joined-at-the-junction",
+                 "no-other-edge-added", "no-edge-lost")
+
+
+def cts_table_clause(which, C, T, mgp):
+    """the clauses about the concatenated table T (bound variables carry fixed names: two constructions over the same table are the same term)"""
+    A, B, n1, n2, a, b, g = C.A, C.B, C.n1, C.n2, C.a, C.b, C.g
+    m = T["id"].nz()
+    if which == "merged-iff-junctions-coincide":
+        return z3.And(*[T[c].nz() == m for c in T], z3.If(C.merged, m == n1 + n2 - 1, m == n1 + n2), C.merged == z3.BoolVal(mgp))
+    i, j, x, y = z3.Ints("ct_i ct_j ct_x ct_y")
+    r1, r2 = z3.And(i >= 0, i < n1), z3.And(j >= 0, j < n2)
+    if which == "first-tree-rows-unchanged":
+        return z3.And(*[z3.ForAll([i], z3.Implies(r1, g(T, c, i) == g(A, c, i))) for c in A])
+    row = lambda q: (n1 + q - z3.If(q > b, 1, 0)) if mgp else (n1 + q)
+    live = lambda q: (q != b) if mgp else z3.BoolVal(True)
+    if which == "second-tree-rows-are-a-shifted-translated-copy":
+        ty = z3.If(j == b, g(B, "type", C.root2), z3.If(j == C.root2, g(B, "type", b), g(B, "type", j)))  # re-rooting exchanges the types of old and new root
+        facts = [g(T, "id", row(j)) == j + n1, g(T, "type", row(j)) == ty, g(T, "r", row(j)) == g(B, "r", j), g(T, "tag", row(j)) == 0]
+        facts += [g(T, c, row(j)) == g(B, c, j) + C.off[c] for c in "xyz"]
+        return z3.ForAll([j], z3.Implies(z3.And(r2, live(j)), z3.And(*facts)))
+    P = lambda q: g(T, "pid", row(q))
+    if which == "joined-at-the-junction":
+        if not mgp:
+            return P(b) == a
+        return z3.ForAll([j], z3.Implies(z3.And(r2, live(j), C.adj(j, b)), P(j) == a))
+    inner = lambda q: z3.And(live(q), z3.Not(C.adj(q, b))) if mgp else (q != b)
+    if which == "no-other-edge-added":
+        q = P(j) - n1
+        return z3.ForAll([j], z3.Implies(z3.And(r2, inner(j)), z3.And(q >= 0, q < n2, q != j, C.adj(j, q), (q != b) if mgp else True)))
+    if which == "no-edge-lost":
+        keep = z3.And(C.adj(x, y), x != b, y != b) if mgp else C.adj(x, y)
+        return z3.ForAll([x, y], z3.Implies(z3.And(x >= 0, x < n2, y >= 0, y < n2, x != y, keep), z3.Or(P(x) == y + n1, P(y) == x + n1)))
+    raise KeyError(which)
+
+
+def cts_post(E, v, o, which):
+    res = v["result"]
+    S, sg, inv = E.ghost["presort"]  # S: the concatenated table as handed to _sort_tree
+    T = ndata(S)
+    C = Cat(E, v, o)
+    if set(T) != set(C.A) or not all(type(T[c]) is SArr for c in T):
+        return False
+    m = T["id"].nz()
+    if which in TABLE_CLAUSES:
+        return cts_table_clause(which, C, T, v["remove"] is not None)
+    R_ = ndata(res)
+    if set(R_) != set(T) or res is not v["tree"]:
+        return False
+    if which == "result-is-fresh":
+        return res.uid not in E.entry_uids and res.fields["ndata"].uid not in E.entry_uids and all(R_[c].uid not in E.entry_uids for c in R_)
+    if which == "result/every-column-permuted-alike":
+        return z3.And(*[z3.And(alen(R_[c]) == m, forall_rng(m, lambda k, _c=c: sel(R_[_c], k) == sel(T[_c], z3.Select(sg, k)), "k")) for c in T if c not in ("id", "pid")])
+    if which.startswith("result/"):
+        return _sorted_relabelling(E, T["id"], T["pid"], R_["id"], R_["pid"], sg, inv, m, which[7:])
+    raise KeyError(which)
+
+
+def _sd2(E, v):
+    """distance of a node of tree2 to the junction b in the tree re-rooted at b: the witness of redirect_tree's contract when it was
+    called, the input's own depth witness when b already was the root"""
+    called = any(nm == "redirect_tree" for nm, _ in E.call_log)
+    return E.spec_extra["sdepth2"].f if called else E.spec_extra["depth"].f
+
+
+def cts_link_inv(which):
+    """loop 1 (`for n in link_to_root: tree.node(n).pid = node1`), k iterations done: only the parent column changes, and exactly the
+    rows listed so far point to node1"""
+    def f(E, v, o, entry):
+        t, t0 = v["tree"], entry["tree"]
+        nd, nd0 = ndata(t), ndata(t0)
+        if set(nd) != set(nd0):
+            return False
+        k = to_z3(v["_k1"], "int")
+        r = z3.Int(fresh_name("r"))
+        n = nd0["id"].nz()
+        rng = z3.And(r >= 0, r < n)
+        if which == "other-columns-untouched":
+            return z3.And(*[z3.And(nd[c].nz() == n, z3.ForAll([r], z3.Implies(rng, z3.Select(nd[c].arr, r) == z3.Select(nd0[c].arr, r)))) for c in nd0 if c != "pid"])
+        ns, b, a = to_z3(v["ns"], "int"), to_z3(o["node2"], "int"), to_z3(o["node1"], "int")
+        if v["remove"] is None:
+            listed = z3.And(r == b + ns, k >= 1)
+        else:
+            flt = E.ghost.get("c07-children")
+            if flt is None:
+                return False
+            q = r - ns
+            listed = z3.And(q >= 0, q < flt.src.nz(), flt.mask.get(q).z, flt.rho(q) < k)
+        if which == "rows-listed-so-far-point-to-node1":
+            return z3.And(nd["pid"].nz() == n, z3.ForAll([r], z3.Implies(rng, z3.Select(nd["pid"].arr, r) == z3.If(listed, a, z3.Select(nd0["pid"].arr, r)))))
+        if which == "list-holds-the-shifted-children-in-row-order":
+            L = v["link_to_root"]
+            mm = z3.Int(fresh_name("m"))
+            if v["remove"] is None:
+                return True
+            return z3.And(zint(L.n) == flt.nz(), z3.ForAll([mm], z3.Implies(z3.And(mm >= 0, mm < flt.nz()), z3.Select(L.cols[0], mm) == flt.kappa(mm) + ns)))
+        raise KeyError(which)
+
+    return (which, f)
+
+
+def cts_after_list(E, v, o):
+    """annotation right after `link_to_root = [...]` (merged case): remember the boolean-mask filter behind children()"""
+    if v.get("remove") is not None and isinstance(col(o["tree1"], "id"), SArr):
+        E.ghost["c07-children"] = getattr(E, "last_filter", None)
+    return True
+
+
+def prove_from(E, label, hyps, goal):
+    """a proof step discharged from an explicit SUBSET of the facts already established on this path (sound: fewer hypotheses)"""
+    from pyvc.engine import Oblig
+
+    note = "annotation" + (f" [variant {E.variant}]" if getattr(E, "variant", "") else "")
+    goal = z3.simplify(goal)  # the form in which a clause reaches `prove` (clauses are simplified when they are evaluated): the later obligation is then this very term
+    E.obligs.append(Oblig(f"{E.prop}/{label}", list(hyps), goal, "annotation", note))
+    E.pc.append(goal)
+
+
+def cts_steps(E, vars, o, C, mgp):
+    """intermediate facts about the concatenated table T (local `tree`) and the shifted second table U (local `tree2`) just before sorting;
+    returns (facts proved from the whole path condition, facts proved from earlier facts only)"""
+    T, U = ndata(vars["tree"]), ndata(vars["tree2"])
+    A, B, n1, n2, a, b, g = C.A, C.B, C.n1, C.n2, C.a, C.b, C.g
+    r, j, p, q = z3.Ints("cs_r cs_j cs_p cs_q")
+    r2 = z3.And(j >= 0, j < n2)
+    m = (n1 + n2 - 1) if mgp else (n1 + n2)
+    row = lambda x: (n1 + x - z3.If(x > b, 1, 0)) if mgp else (n1 + x)
+    live = lambda x: (x != b) if mgp else z3.BoolVal(True)
+    pp = lambda x: g(U, "pid", x) - n1                     # parent of node x of tree2 after re-rooting at b
+    link = lambda x: (pp(x) == b) if mgp else (x == b)     # rows whose parent id is overwritten by node1
+    sd2 = _sd2(E, vars)
+    ty = z3.If(j == b, g(B, "type", C.root2), z3.If(j == C.root2, g(B, "type", b), g(B, "type", j)))
+    common = [c for c in T if c in U and c != "pid"]
+    jr = (r - n1 + z3.If(r - n1 >= b, 1, 0)) if mgp else (r - n1)   # the node of tree2 shown in row r >= n1
+    rr = z3.And(r >= n1, r < m)
+    full, derived = {}, {}
+    full["sizes"] = z3.And(to_z3(vars["ns"], "int") == n1, *[T[c].nz() == m for c in T], *[U[c].nz() == n2 for c in U])
+    full["first-tree-rows"] = z3.And(*[z3.ForAll([r], z3.Implies(z3.And(r >= 0, r < n1), g(T, c, r) == g(A, c, r))) for c in A])
+    for c in common:
+        full[f"second-tree-rows/{c}"] = z3.ForAll([r], z3.Implies(rr, g(T, c, r) == g(U, c, jr)))
+    full["second-tree-rows/tag"] = z3.ForAll([r], z3.Implies(rr, g(T, "tag", r) == 0))
+    full["second-tree-rows/pid"] = z3.ForAll([r], z3.Implies(rr, g(T, "pid", r) == z3.If(link(jr), a, g(U, "pid", jr))))
+    full["second-table-attributes"] = z3.ForAll([j], z3.Implies(r2, z3.And(
+        g(U, "id", j) == j + n1, g(U, "r", j) == g(B, "r", j), g(U, "type", j) == ty, *[g(U, c, j) == g(B, c, j) + C.off[c] for c in "xyz"])))
+    full["second-parent-table/root"] = z3.And(pp(b) == -1, sd2(b) == 0)
+    full["second-parent-table/parents"] = z3.ForAll([j], z3.Implies(z3.And(r2, j != b), z3.And(pp(j) >= 0, pp(j) < n2)))
+    dep = z3.ForAll([j], z3.Implies(z3.And(r2, j != b), z3.And(sd2(j) == sd2(pp(j)) + 1, sd2(j) > 0, sd2(pp(j)) >= 0)))
+    if any(nm == "redirect_tree" for nm, _ in E.call_log):
+        prow2 = E.spec_extra["prow2"].f
+        full["second-parent-table/parent-rows"] = z3.ForAll([j], z3.Implies(z3.And(r2, j != b), prow2(j) == pp(j)))
+        full["second-parent-table/witness"] = z3.ForAll([j], z3.Implies(r2, z3.And(sd2(j) >= 0, z3.Implies(j != b, sd2(j) == sd2(prow2(j)) + 1))))
+    else:
+        full["second-parent-table/parent-rows"] = z3.And(b == C.root2, z3.ForAll([j], z3.Implies(r2, pp(j) == g(B, "pid", j))))
+        full["second-parent-table/witness"] = z3.ForAll([j], z3.Implies(z3.And(r2, j != C.root2), z3.And(sd2(j) == sd2(g(B, "pid", j)) + 1, sd2(j) > 0)))
+    derived["second-parent-table/depths"] = dep
+    full["second-parent-table/edges"] = z3.ForAll([p, q], z3.Implies(z3.And(p >= 0, p < n2, q >= 0, q < n2), C.adj(p, q) == z3.Or(pp(p) == q, pp(q) == p)))
+    # pure index arithmetic: rows >= n1 and the live nodes of tree2 correspond one to one
+    derived["row-index-arithmetic"] = z3.And(z3.ForAll([r], z3.Implies(rr, z3.And(jr >= 0, jr < n2, live(jr), row(jr) == r))),
+                                             z3.ForAll([j], z3.Implies(z3.And(r2, live(j)), z3.And(row(j) >= n1, row(j) < m))))
+    derived["second-tree-rows"] = z3.ForAll([j], z3.Implies(z3.And(r2, live(j)), z3.And(
+        *[g(T, c, row(j)) == g(U, c, j) for c in common], g(T, "tag", row(j)) == 0, g(T, "pid", row(j)) == z3.If(link(j), a, g(U, "pid", j)))))
+    return full, derived
+
+
+def cts_sort_hint(E, vars):
+    """before the precondition of _sort_tree on the concatenated table: (1) ghost witnesses (definitions of fresh symbols): prow(r) = the row
+    of r's parent (tree1's parent table for tree1's rows; node1 for the relinked rows; the row of the parent in the re-rooted tree2
+    otherwise), sdepth = depth in tree1 for tree1's rows, depth of the junction (+1 when not merged) + distance to the second junction for
+    tree2's rows; (2) proof steps: a description of the table, then every table clause and every precondition of sorting from that
+    description alone"""
+    o = E.top_old
+    if not isinstance(col(o["tree1"], "id"), SArr) or "remove" not in vars:
+        return
+    X = E.spec_extra
+    prow, sdepth, depth1 = X["prow"].f, X["sdepth"].f, X["depth1"].f
+    sd2 = _sd2(E, vars)
+    C = Cat(E, vars, o)
+    n1, n2, a, b, g = C.n1, C.n2, C.a, C.b, C.g
+    mgp = vars["remove"] is not None
+    T, U = ndata(vars["tree"]), ndata(vars["tree2"])
+    r = z3.Int("cs_w")
+    j = (r - n1 + z3.If(r - n1 >= b, 1, 0)) if mgp else (r - n1)     # node of tree2 shown in row r >= n1
+    pj = g(U, "pid", j) - n1                                          # its parent in the re-rooted tree2
+    linked = (pj == b) if mgp else (j == b)
+    rowof = (n1 + pj - z3.If(pj > b, 1, 0)) if mgp else (n1 + pj)
+    defs = [z3.ForAll([r], prow(r) == z3.If(r < n1, g(C.A, "pid", r), z3.If(linked, a, rowof)), patterns=[prow(r)]),
+            z3.ForAll([r], sdepth(r) == z3.If(r < n1, depth1(r), depth1(a) + sd2(j) + (0 if mgp else 1)), patterns=[sdepth(r)])]
+    for d in defs:
+        E.assume(d)
+    E.assumptions.add("ghost definition (cat_tree, symbolic sizes): prow / sdepth of the concatenated table from the parent tables and depth witnesses of the two trees")
+    full, derived = cts_steps(E, vars, o, C, mgp)
+    for nm, f in full.items():
+        E.prove(f"cat_tree/step/{nm}", f, "annotation")
+    ranges = [cts_pre(E, o, "junctions-are-nodes"), n1 >= 1, n2 >= 1]
+    prove_from(E, "cat_tree/step/second-parent-table/depths", [full[k] for k in full if k.startswith("second-parent-table/")] + ranges, derived["second-parent-table/depths"])
+    prove_from(E, "cat_tree/step/row-index-arithmetic", ranges, derived["row-index-arithmetic"])
+    prove_from(E, "cat_tree/step/second-tree-rows", ranges + [derived["row-index-arithmetic"]] + [f for nm, f in full.items() if nm.startswith("second-tree-rows/")], derived["second-tree-rows"])
+    base = list(full.values()) + list(derived.values()) + ranges + [cts_pre(E, o, "well-formed-inputs"), C.merged if mgp else z3.Not(C.merged)]
+    for w in TABLE_CLAUSES:
+        prove_from(E, f"cat_tree/step/table/{w}", base, cts_table_clause(w, C, T, mgp))
+    # the depth witness, case by case (tree1's rows / relinked rows / the other rows of tree2), then the clause itself from the cases
+    m = T["id"].nz()
+    root1 = to_z3(X["srootrow"], "int")
+    in1, in2 = z3.And(r >= 0, r < n1), z3.And(r >= n1, r < m)
+    step = sdepth(r) == sdepth(prow(r)) + 1
+    cases = {
+        "tree1-rows": z3.ForAll([r], z3.Implies(z3.And(in1, r != root1), z3.And(prow(r) >= 0, prow(r) < n1, step))),
+        "tree1-depths": z3.ForAll([r], z3.Implies(in1, z3.And(sdepth(r) == depth1(r), depth1(r) >= 0))),
+        "relinked-rows": z3.ForAll([r], z3.Implies(z3.And(in2, linked), z3.And(prow(r) == a, step))),
+        "other-rows-of-tree2": z3.ForAll([r], z3.Implies(z3.And(in2, z3.Not(linked)), z3.And(prow(r) >= n1, prow(r) < m, step))),
+        "depths-nonnegative": z3.ForAll([r], z3.Implies(z3.And(r >= 0, r < m), sdepth(r) >= 0)),
+    }
+    wf1 = _wf(o["tree1"], root1, depth1)
+    ptab = [full["second-parent-table/root"], full["second-parent-table/parents"], derived["second-parent-table/depths"]]
+    arith = [full["sizes"], derived["row-index-arithmetic"]] + ranges
+    j2 = z3.Int("cs_j")
+    sd2nn = z3.ForAll([j2], z3.Implies(z3.And(j2 >= 0, j2 < n2), sd2(j2) >= 0))
+    prove_from(E, "cat_tree/step/depth/second-tree-depths-nonnegative", [full["second-parent-table/root"], derived["second-parent-table/depths"]], sd2nn)
+    needs = {  # every case from the few facts it rests on
+        "tree1-depths": [defs[1], wf1],
+        "tree1-rows": defs + [wf1],
+        "relinked-rows": defs + arith + ptab + [wf1],
+        "other-rows-of-tree2": defs + arith + ptab,
+        "depths-nonnegative": [defs[1], wf1, sd2nn] + arith,
+    }
+    for nm, f in cases.items():
+        prove_from(E, f"cat_tree/step/depth/{nm}", needs[nm], f)
+    hyp = defs + [wf1]
+    for w in TREE_PRE:
+        hy = (list(cases.values()) + [full["sizes"], root1 >= 0, root1 < n1, sdepth(root1) == 0]) if w == "every-row-reaches-the-root" else (base + defs)
+        if w == "every-row-reaches-the-root":
+            prove_from(E, "cat_tree/step/depth/root", hyp, z3.And(root1 >= 0, root1 < n1, sdepth(root1) == 0))
+        prove_from(E, f"cat_tree/step/sortable/{w}", hy, _is_tree(E, T["id"], T["pid"], w))
+
+
+CTS_LOOPS = {1: dict(invariant=[cts_link_inv(w) for w in ("other-columns-untouched", "list-holds-the-shifted-children-in-row-order", "rows-listed-so-far-point-to-node1")],
+                     types={"link_to_root": "int"}, modifies=["tree.ndata"])}
+
+
 CT_POSTS = ["merged-iff-junctions-coincide", "first-tree-rows-unchanged", "second-tree-rows-are-a-shifted-translated-copy", "joined-at-the-junction",
             "no-other-edge-added", "no-edge-lost", "result-is-fresh", "result/every-column-permuted-alike"] + ["result/" + w for w in RELABEL]
 
@@ -553,6 +950,24 @@ def register_cat(R):
         notes="sizes fixed per variant (tree1 of 1-2 nodes, tree2 of 1-3 nodes, and 1 + 4 nodes), all coordinates / radii / types / parent tables and both junction "
               "nodes symbolic; the inner redirect_tree is inlined (its loop unrolled); the clauses speak about the concatenated table as handed to "
               "_sort_tree (ghost `presort`), the result is its sorted relabelling",
+    )
+    from pyvc import ext_C09
+
+    # second registration of the same function (same property): symbolic sizes.  Its obligations carry the same names as those of
+    # the fixed-size variants above (one clause, all variants).
+    R.add(
+        f"{TU}:cat_tree",
+        prop="C07",
+        variants={f"symbolic sizes,translate={tr}": cts_setup(tr) for tr in (True, False)},
+        requires=[ct_pre("well-formed-inputs"), ct_pre("junctions-are-nodes")],
+        ensures=[ct_post(w) for w in CT_POSTS],
+        ghost_funcs=CT_GHOSTS,
+        loops=CTS_LOOPS,
+        options=dict(registry=_CatOverlay(R), models=ext_C09.MODELS, feas_timeout_ms=10000,
+                     asserts_after={"link_to_root": [("children-filter-recorded", cts_after_list)]},
+                     hints={"call:_sort_tree/pre/ids-distinct": cts_sort_hint}),
+        notes="both trees of symbolic size (>= 1), ids = positions, root anywhere (ghost root1 / root2), both junctions symbolic; redirect_tree through a "
+              "call-site contract made of its proved clauses; clauses about the concatenated table as handed to _sort_tree, the result is its sorted relabelling",
     )
 
 
